@@ -426,6 +426,57 @@ def programs : List (String × Prog) :=
    ("vvcBwdScalar", vvcBwdScalar), ("vvcBwdPol", vvcBwdPol),
    ("vvcBwdStopScalar", vvcBwdStopScalar), ("vvcBwdStopPol", vvcBwdStopPol)]
 
+/-! ### The programs with a loop, for any number of rounds
+
+multi-scale coronagraphs: one round per scale beyond the first (`len(props) - 1`); vector vortex on
+scalar input: each round also builds a polarised stand-in of the focal wavefront;
+`MultiLayerAtmosphere`: `wf = wavefront.copy()` and one round per element of the chain
+(`wf = el.forward(wf)`: a layer copies and multiplies in place; a propagator between layers creates
+its one new wavefront — the same effect on the store as far as the checker and the trace go).
+The one-round programs above (`multiscaleFwd`, …) stay in `programs`. -/
+
+def msBody (src : Var) : List Instr :=
+  [.newFrom 2 opProp [src] src, .inplace opMul 2 [], .newFrom 3 opPropBack [2] 2, .inplace opAdd 1 [3]]
+def stopPost : List Instr := [.copy 4 1, .inplace opMul 4 []]
+
+def multiscaleFwdL : LoopProg :=
+  ⟨[.saveAttr 0 0 .wavelength, .setAttrConst 0 .wavelength 1, .newFrom 1 opFilter [0] 0], msBody 0,
+   [.setAttrSlot 1 .wavelength 0, .setAttrSlot 0 .wavelength 0], 1⟩
+def multiscaleFwdStopL : LoopProg := { multiscaleFwdL with post := multiscaleFwdL.post ++ stopPost, ret := 4 }
+def multiscaleBwdStopL : LoopProg :=
+  ⟨[.copy 5 0, .inplace opMul 5 [], .saveAttr 0 5 .wavelength, .setAttrConst 5 .wavelength 1, .newFrom 1 opFilter [5] 5],
+   msBody 5, [.setAttrSlot 1 .wavelength 0, .setAttrSlot 5 .wavelength 0], 1⟩
+def vvcBodyPol : List Instr :=
+  [.newFrom 2 opProp [0] 0, .setFieldNew 2 opJones [2], .newFrom 3 opPropBack [2] 2, .inplace opAdd 1 [3]]
+def vvcFwdScalarL : LoopProg :=
+  ⟨[.saveAttr 0 0 .wavelength, .setAttrConst 0 .wavelength 1, .newFrom 6 opJones [0] 0, .newFrom 1 opFilter [6] 6],
+   [.newFrom 2 opProp [0] 0, .newFrom 7 opJones [2] 2, .setFieldNew 7 opJones [7], .newFrom 3 opPropBack [7] 7, .inplace opAdd 1 [3]],
+   [.setAttrSlot 1 .wavelength 0, .setAttrSlot 0 .wavelength 0], 1⟩
+def vvcFwdPolL : LoopProg :=
+  ⟨[.saveAttr 0 0 .wavelength, .setAttrConst 0 .wavelength 1, .bind 6 0, .newFrom 1 opFilter [6] 6], vvcBodyPol,
+   [.setAttrSlot 1 .wavelength 0, .setAttrSlot 0 .wavelength 0], 1⟩
+def vvcFwdScalarStopL : LoopProg := { vvcFwdScalarL with post := vvcFwdScalarL.post ++ stopPost, ret := 4 }
+def vvcFwdPolStopL : LoopProg := { vvcFwdPolL with post := vvcFwdPolL.post ++ stopPost, ret := 4 }
+def vvcBwdScalarL : LoopProg :=
+  ⟨[.saveAttr 0 0 .wavelength, .setAttrConst 0 .wavelength 1, .bind 9 0, .newFrom 0 opJones [0] 0, .newFrom 1 opFilter [0] 0],
+   vvcBodyPol, [.setAttrSlot 1 .wavelength 0, .setAttrSlot 9 .wavelength 0], 1⟩
+def vvcBwdPolL : LoopProg :=
+  ⟨[.saveAttr 0 0 .wavelength, .setAttrConst 0 .wavelength 1, .bind 9 0, .newFrom 1 opFilter [0] 0],
+   vvcBodyPol, [.setAttrSlot 1 .wavelength 0, .setAttrSlot 9 .wavelength 0], 1⟩
+def vvcBwdStopScalarL : LoopProg := { vvcBwdScalarL with pre := [.copy 0 0, .inplace opMul 0 []] ++ vvcBwdScalarL.pre }
+def vvcBwdStopPolL : LoopProg := { vvcBwdPolL with pre := [.copy 0 0, .inplace opMul 0 []] ++ vvcBwdPolL.pre }
+def layersL : LoopProg := ⟨[.copy 1 0], [.copy 2 1, .inplace opMul 2 [], .bind 1 2], [], 1⟩
+
+def loopPrograms : List (String × LoopProg) :=
+  [("multiscaleFwd", multiscaleFwdL), ("multiscaleFwdStop", multiscaleFwdStopL), ("multiscaleBwd", multiscaleFwdL),
+   ("multiscaleBwdStop", multiscaleBwdStopL), ("vvcFwdScalar", vvcFwdScalarL), ("vvcFwdPol", vvcFwdPolL),
+   ("vvcFwdScalarStop", vvcFwdScalarStopL), ("vvcFwdPolStop", vvcFwdPolStopL), ("vvcBwdScalar", vvcBwdScalarL),
+   ("vvcBwdPol", vvcBwdPolL), ("vvcBwdStopScalar", vvcBwdStopScalarL), ("vvcBwdStopPol", vvcBwdStopPolL),
+   ("copyThenChain", layersL)]
+
+def loopProgramByName (n : String) : Option LoopProg := (loopPrograms.find? (·.1 == n)).map (·.2)
+
+
 def programByName (n : String) : Option Prog :=
   if n == "vvcBwdScalarOld" then some vvcBwdScalarOld
   else if n == "scaleSharedGridOld" then some scaleSharedGridOld
